@@ -154,6 +154,8 @@ def ensure_env():
             sys.path.remove(p)
     sys.path.insert(0, VERIF)
     sys.path.insert(0, REPO)
+    import logging
+    logging.disable(logging.CRITICAL)   # kernels that observe log records re-enable it locally
 
 
 def impl_module():
